@@ -66,8 +66,7 @@ def lib_expect(srcs, filename):
     return [res.get(i, {}).get("fp", {}) for i in range(len(srcs))]
 
 
-CHUNK = 8192          # the read size of run_stdin; a different real size only moves the cases off the boundary (then
-                      # `read_boundaries_hit` in the evidence drops to 0, and the check says so as a tool error)
+CHUNK = 8192          # fallback; the real read size of the stdin route is measured with strace at run time
 CHARS = {2: "\u00e9", 3: "\u20a6", 4: "\U0001f600"}
 
 
@@ -83,6 +82,23 @@ def intake(v, naija, q):
         if r.rc != 12 or not any(inv in e for e in r.errors):
             raise common.ToolError("SourceIntake.tla does not refute %s (vacuous model)" % cfg)
     classes = m.records[0]
+    # the size the shipped binary asks read(2) for on fd 0 (so that a re-tuned buffer moves the cases with it)
+    global CHUNK
+    import collections as _c
+    import re as _re
+    try:
+        with tempfile.TemporaryDirectory(prefix="c14s_", dir=os.path.join(common.VERIF, "work")) as sd:
+            log = os.path.join(sd, "st.txt")
+            subprocess.run(["strace", "-e", "trace=read", "-o", log, naija, "-"], input=(("#" + "a" * 100 + "\n") * 2000 + "shout(1)\n").encode(),
+                           capture_output=True, timeout=120)
+            sizes = _c.Counter(int(x.group(1)) for x in _re.finditer(r"read\(0, .*?, (\d+)\)\s+=", open(log).read()))
+        if sizes:
+            CHUNK = sizes.most_common(1)[0][0]
+            measured = True
+        else:
+            measured = False
+    except (OSError, subprocess.SubprocessError):
+        measured = False
     cases = []
     for sd in classes["straddle"]:
         for k in classes["boundaries"]:
@@ -137,7 +153,7 @@ def intake(v, naija, q):
     if not wrap:
         raise common.ToolError("no intake case produced a multiple of 256 error diagnostics (counts seen: %s)" % sorted(counts_seen))
     return {"model_states": m.distinct, "model_transitions": m.generated, "refuted_slips": ["per-chunk validation", "error count as status"],
-            "cases": len(cases), "runs": runs, "agree": agree, "read_boundaries_hit": hit, "error_counts_seen": sorted(counts_seen),
+            "stdin_read_size": CHUNK, "stdin_read_size_measured": measured, "cases": len(cases), "runs": runs, "agree": agree, "read_boundaries_hit": hit, "error_counts_seen": sorted(counts_seen),
             "error_counts_multiple_of_256": wrap}
 
 
